@@ -35,14 +35,13 @@ Is(k) == l <= N /\ R.k = k
 B(x) == (x = TRUE)
 
 \* bookkeeping for the guards of the deviation actions (it never influences a strict verdict)
-\*   drift    reported cost minus resident cost accumulated so far (F17)
 \*   lastMaint, ahead   F15: two maintenance passes (or the creation of the cache and a pass)
 \*            less than a wheel tick apart put the TTL timer wheel ahead of the clock
 \*   stale    keys that may own a TTL timer that was not cancelled (FC2)
 \*   unknown  keys whose resident entry was never announced to the eviction policy (F21)
 \*   wsm, lossy  writes since the last maintenance pass; more than the 512 slots of a shard's
 \*            event buffer means write events were dropped (F16)
-Aux0(t) == [drift |-> 0, lastMaint |-> t, ahead |-> FALSE, stale |-> {}, unknown |-> {}, wsm |-> 0, lossy |-> FALSE]
+Aux0(t) == [lastMaint |-> t, ahead |-> FALSE, stale |-> {}, unknown |-> {}, wsm |-> 0, lossy |-> FALSE]
 Cfg0 == [hid |-> 0, shards |-> 1, keys |-> 1, cap |-> 0, ttl |-> 0, tti |-> 0, grace |-> 0, tick |-> 0, policy |-> "", kf |-> {}]
 
 Init ==
@@ -74,7 +73,6 @@ DevsOf(L, S, t, a) == UNION {NoteDevs(L, x, t, a) : x \in S}
 
 (* ---- deviation bookkeeping ----------------------------------------------------- *)
 Same(a) == a
-ZeroDrift(a) == [a EXCEPT !.drift = 0]
 Maintained(a) == [a EXCEPT !.ahead = @ \/ (cfg.tick > 0 /\ R.t - a.lastMaint < cfg.tick), !.lastMaint = R.t, !.wsm = 0]
 Fresh(a) == Aux0(R.t)
 
@@ -99,20 +97,6 @@ Book(a1, r, L0, pre, L1, Lo, post, L2) ==
                  ELSE {k \in @ : Present(L2, k) /\ L2[k].wid = L0[k].wid},
      !.wsm = w,
      !.lossy = @ \/ w > 512]
-
-(* ---- reported cost (C13 CostMatchesResidency) ---------------------------------- *)
-\* Known finding F17: the capacity pass of run_maintenance subtracts the eviction policy's
-\* recorded cost of every nominated victim, resident or not (a key removed / cleared /
-\* overwritten before the policy learnt about it is still nominated later, and several
-\* policies keep the cost of the first admission), so the reported cost drifts away from
-\* the resident cost, in either direction, even below zero.  The drift persists until
-\* clear() resets the counter.  Only that capacity pass can create it.
-\* (a drift must not be confused with an entry that silently left the map: where the drift
-\* appears every resident unexpired entry is still visible to peek)
-CostDev(L, r, a) ==
-  /\ Dev("F17") /\ Bounded /\ r.k = "maint" /\ r.cr # Resident(L) + a.drift
-  /\ "view" \in DOMAIN r
-  /\ \A k \in DOMAIN L : (Present(L, k) /\ ~PossExp(L[k], r.t)) => r.view[k] # None
 
 (* ---- one completed call --------------------------------------------------------- *)
 \* Op(L, r, t) is the Layer A outcome set of the call.  Forgets announced in `notes` are
@@ -149,12 +133,10 @@ Apply(r, Op(_, _, _), AuxUpd(_), Post(_, _)) ==
                IN
                /\ B(Post(L2, a2).ok)
                /\ B(("view" \in DOMAIN r) => ViewOK(L2, r.view, r.t))
-               /\ \/ /\ r.cr = Resident(L2) + a2.drift
-                     /\ aux' = a2
-                     /\ devs' = dv
-                  \/ /\ B(CostDev(L2, r, a2))
-                     /\ aux' = [a2 EXCEPT !.drift = r.cr - Resident(L2)]
-                     /\ devs' = dv \cup {"F17"}
+               \* C13 CostMatchesResidency: at this quiescent point the reported cost is the resident cost
+               /\ r.cr = Resident(L2)
+               /\ aux' = a2
+               /\ devs' = dv
                /\ live' = L2
   /\ now' = r.t
   /\ l' = l + 1
@@ -167,8 +149,7 @@ Ins == Is("ins") /\ Apply(R, Insert, Same, NoPost)
 MIns == Is("mins") /\ Apply(R, MultiInsert, Same, NoPost)
 Rem == Is("rem") /\ Apply(R, Remove, Same, NoPost)
 MRem == Is("mrem") /\ Apply(R, MultiRemove, Same, NoPost)
-\* clear() and a restore also reset the reported cost, which ends any accumulated drift
-Clr == Is("clear") /\ Apply(R, Clear, ZeroDrift, NoPost)
+Clr == Is("clear") /\ Apply(R, Clear, Same, NoPost)
 Comp == Is("comp") /\ Apply(R, Compute, Same, NoPost)
 Ent == Is("ent") /\ Apply(R, EntryOp, Same, NoPost)
 Rd == Is("rd") /\ Apply(R, Read, Same, NoPost)
@@ -184,15 +165,12 @@ Maint == Is("maint") /\ Apply(R, Nop, Maintained, NoPost)
 
 \* Quiescence after maintenance was repeated until nothing changed: C13 CapacityAtQuiescence.
 \* Known findings that leave the cache over capacity for good:
-\*   F17  the reported cost has drifted below the resident cost, and the reported cost is
-\*        within the capacity;
 \*   FC3  the ARC policy (root cause F19) silently stops tracking resident keys, they are never nominated;
 \*   F21  entries restored from a snapshot are never announced to the policy;
 \*   F16  write events beyond the 512 slots of a shard's event buffer are dropped, the
 \*        policy never learns those keys.
 CapDevs(L, a) ==
-  (IF Dev("F17") /\ a.drift < 0 /\ Resident(L) + a.drift <= cfg.cap THEN {"F17"} ELSE {})
-  \cup (IF Dev("FC3") /\ cfg.policy = "arc" THEN {"FC3"} ELSE {})
+  (IF Dev("FC3") /\ cfg.policy = "arc" THEN {"FC3"} ELSE {})
   \cup (IF Dev("F21") /\ \E k \in a.unknown : Present(L, k) THEN {"F21"} ELSE {})
   \cup (IF Dev("F16") /\ a.lossy THEN {"F16"} ELSE {})
 CapPost(L, a) == [ok |-> CapacityOK(L) \/ CapDevs(L, a) # {}, devs |-> IF CapacityOK(L) THEN {} ELSE CapDevs(L, a)]
